@@ -287,13 +287,16 @@ def _flag_table(ctx, P, name, spec):
     rows2 = []
     for r in rows or []:
         rt = T.strip(r.ret)
+        neg = False
+        while rt[0] == "unop" and rt[1] == "Not":
+            rt, neg = T.strip(rt[2]), not neg
         if rt[0] == "binop" and rt[1] in ("Eq", "Ne"):
             for pol in (True, False):
                 k = key_of_cmp(("cmp", rt[1], rt[2], rt[3], pol))
                 if k == "unknown":
                     rows2 = None
                     break
-                rr = D.Row(r.conds + [("cmp", rt[1], rt[2], rt[3], pol, None)], ("const", pol, None, "bool"), r.trail)
+                rr = D.Row(r.conds + [("cmp", rt[1], rt[2], rt[3], pol, None)], ("const", pol != neg, None, "bool"), r.trail)
                 rows2.append(rr)
             if rows2 is None:
                 break
